@@ -3,7 +3,7 @@
 //
 //   faults list                                             names of the workloads
 //   faults run <trace> <workload> <quick|thorough> <nshard> <shard> [masks]
-//   faults one <trace> <workload> <cls> <k[,k..]>           the clean execution + that single injected execution
+//   faults one <trace> <workload> <cls> <k[,k..]> [inplace] the clean execution + that single injected execution
 //
 // Classes of requests (the property's quantifier):
 //   arena  every consultation of hook H1 (asmjit_verif_arena_fail) - i.e. every entry into Arena::alloc_oneshot (inline),
@@ -261,15 +261,38 @@ struct Rec {
   std::function<void(Dig&)> semantic; // s: what the state MEANS (defaults to d); see Faults.tla
   uint64_t extra = 0;                 // per-step output folded into both digests (copied bytes, function results)
   uint64_t extra_d = 0;               // per-step output folded into d only
+  std::function<void(Dig&)> product;  // p: the product only - code bytes / results of executed code / container contents -
+                                      //    without ids and counters (defaults to s); judged after a repair in place
   bool all_ok = true;                 // every call made so far in this phase returned Ok
+  // Continuation mode "retry in place": when an API call that had a failure injected returns an error, memory is made
+  // available again and exactly that call is repeated on the same objects (no reset); the workload then continues.
+  bool inplace = false;
+  int redo = 0;                       // API calls repeated during the current step
   // Calls on a holder whose init() failed / on an emitter that is not attached are a misuse of the API with or
   // without allocation failures (most answer NotInitialized, a few do not check): such calls are not made.
   std::function<bool()> usable;
 
+  // one public API call inside a step (a step may batch several); value-returning APIs report through the handler
+  template<class F> Error call(F&& fn) {
+    unsigned h0 = E.hits;
+    if (eh) eh->last = Error::kOk;
+    Error e = fn();
+    if (e == Error::kOk && eh && eh->last != Error::kOk) e = eh->last;
+    if (e != Error::kOk && inplace && ph == 'F' && E.hits != h0) {
+      bool was = E.armed; E.armed = false;             // memory is available again
+      redo++;
+      if (eh) eh->last = Error::kOk;
+      e = fn();
+      if (e == Error::kOk && eh && eh->last != Error::kOk) e = eh->last;
+      E.armed = was;
+    }
+    return e;
+  }
+
   template<class F> Error step(const char* name, F&& fn, bool guarded = true) {
     idx++;
     unsigned h0 = E.hits;
-    extra = 0; extra_d = 0;
+    extra = 0; extra_d = 0; redo = 0;
     if (eh) eh->last = Error::kOk;
     Error e = (guarded && usable && !usable()) ? Error(0xFFFFu) : fn();
     if (e == Error::kOk && eh && eh->last != Error::kOk) e = eh->last;   // value-returning APIs report through the handler
@@ -278,8 +301,10 @@ struct Rec {
     bool was_armed = E.armed; E.armed = false;         // the digest only reads, but keep it out of the counts
     Dig d; d.u64(extra); d.u64(extra_d); if (digest) digest(d);
     Dig sd; sd.u64(extra); if (semantic) semantic(sd); else { sd.u64(extra_d); if (digest) digest(sd); }
+    Dig pd; pd.u64(extra); if (product) product(pd); else pd.h = sd.h;
     if (out) {
-      w.beginObj().kv("e", "Call").kv("ph", std::string(1, ph)).kv("i", idx).kv("c", name).kv("r", err_name(e)).kv("f", f).kv("d", d.fold()).kv("s", sd.fold());
+      w.beginObj().kv("e", "Call").kv("ph", std::string(1, ph)).kv("i", idx).kv("c", name).kv("r", err_name(e)).kv("f", f).kv("d", d.fold()).kv("s", sd.fold())
+       .kv("p", pd.fold()).kv("redo", redo);
       if (g_verbose) { w.key("marks").beginObj(); for (auto& m : d.marks) w.kv(m.first.c_str(), m.second); w.endObj(); w.kv("hex", d.hex); }
       if (f) w.kv("phys", E.last_phys).kv("site", E.last_site).kv("size", (long long)std::min<size_t>(E.last_size, 1u << 30)).kv("op", E.last_op).kv("hits", (long long)(E.hits - h0));
       w.endObj().emit(out);
@@ -292,8 +317,15 @@ struct Rec {
   void skip(const char* name) { step(name, [] { return Error(0xFFFFu); }); }
 };
 
-#define S(name, expr) R.step(name, [&]() -> Error { return (expr); })
-#define S0(name, expr) R.step(name, [&]() -> Error { return (expr); }, false)      /* not guarded: init / attach / construction */
+// C: one repeatable API call.  CV: a value-returning API call (statement; then the validity test of what it returned).
+#define C(expr) R.call([&]() -> Error { return (expr); })
+#define CV(stmt, valid) R.call([&]() -> Error { stmt; return (valid) ? Error::kOk : Error::kOutOfMemory; })
+#define S(name, expr) R.step(name, [&]() -> Error { return C(expr); })
+#define S0(name, expr) R.step(name, [&]() -> Error { return C(expr); }, false)      /* not guarded: init / attach / construction */
+// a call that is NOT repeatable after a failure: multi-stage transformations (finalize / run_passes / serialize_to) have
+// consumed or rewritten part of their input when they fail; the documentation promises a consistent state for cancelling
+// the code generation, not resumption - only reset / destruction are demanded afterwards
+#define SN(name, expr) R.step(name, [&]() -> Error { return (expr); })
 // direct CodeHolder calls are only made on an initialised holder: using a holder whose init() failed is a misuse of
 // the API with or without allocation failures (emitters check this themselves and answer NotInitialized)
 #define SH(name, expr) (code.is_initialized() ? S(name, expr) : (R.skip(name), Error(0xFFFFu)))
@@ -361,6 +393,17 @@ static void digest_nodes(Dig& d, const BaseBuilder& b, bool with_comments = true
   d.mark("nodes");
 }
 
+// the product of a holder: what ends up in memory - per section alignment, offset and bytes (no ids, no counters)
+static void product_code(Dig& d, const CodeHolder& code, bool with_bytes = true) {
+  d.u64(code.is_initialized());
+  d.u64(code.section_count());
+  for (Section* s : code.sections()) {
+    if (!s) { d.u64(0xDEAD); continue; }
+    d.u64(s->alignment()); d.u64(s->offset());
+    if (with_bytes) d.bytes(s->data(), s->buffer_size()); else d.u64(s->buffer_size());
+  }
+}
+
 // ---------------------------------------------------------------------------------------------------------
 // W1 - assemble: labels, forward/backward references, 3 sections, embed_label / delta, relocations, flatten,
 //      resolve, relocate, copy (x86-64 and AArch64), including a reinit in the middle of the program
@@ -378,12 +421,13 @@ struct W1 : Workload {
 
   Label new_label(Rec& R, const char* nm) {
     Label L;
-    R.step(nm, [&]() -> Error { eh.last = Error::kOk; L = as().new_label(); return L.is_valid() ? Error::kOk : (eh.last != Error::kOk ? eh.last : Error::kOutOfMemory); });
+    R.step(nm, [&]() -> Error { return CV(L = as().new_label(), L.is_valid()); });
     return L;
   }
 
   void body(Rec& R) override {
     R.digest = [this](Dig& d) { digest_code(d, code); };
+    R.product = [this](Dig& d) { product_code(d, code); };
     R.eh = &eh;
     BaseAssembler& a = as();
     R.usable = [this]() { return code.is_initialized() && as().code() == &code; };
@@ -398,7 +442,9 @@ struct W1 : Workload {
       S("bind.p", a.bind(P));
       Section* tmp = nullptr;
       SH("new_section.p", code.new_section(Out(tmp), ".tmp", SIZE_MAX, SectionFlags::kNone, 4));
-      S("reinit", code.reinit());
+      // reinit() == reset(kSoft) + init(): when it fails the holder is left uninitialised and its emitters detached,
+      // so it cannot be repeated in place (init + attach would have to be repeated: that is the restart continuation)
+      SN("reinit", code.reinit());
     }
     // ---- the main program ----
     Section* data = nullptr; Section* ro = nullptr;
@@ -407,9 +453,9 @@ struct W1 : Workload {
     Label L1 = new_label(R, "new_label.1"), L2 = new_label(R, "new_label.2"), L3 = new_label(R, "new_label.3");
     Label LD = new_label(R, "new_label.d"), LR = new_label(R, "new_label.r"), LB = new_label(R, "new_label.b");
     Label entry, local;
-    R.step("new_named_label", [&]() -> Error { eh.last = Error::kOk; entry = a.new_named_label("entry", SIZE_MAX, LabelType::kGlobal); return entry.is_valid() ? Error::kOk : (eh.last != Error::kOk ? eh.last : Error::kOutOfMemory); });
-    R.step("new_named_label.local", [&]() -> Error { eh.last = Error::kOk; local = a.new_named_label("loop", SIZE_MAX, LabelType::kLocal, entry.id()); return local.is_valid() ? Error::kOk : (eh.last != Error::kOk ? eh.last : Error::kOutOfMemory); });
-    R.step("new_named_label.dup", [&]() -> Error { eh.last = Error::kOk; Label x = a.new_named_label("entry", SIZE_MAX, LabelType::kGlobal); return x.is_valid() ? Error::kOk : (eh.last != Error::kOk ? eh.last : Error::kOutOfMemory); });
+    R.step("new_named_label", [&]() -> Error { return CV(entry = a.new_named_label("entry", SIZE_MAX, LabelType::kGlobal), entry.is_valid()); });
+    R.step("new_named_label.local", [&]() -> Error { return CV(local = a.new_named_label("loop", SIZE_MAX, LabelType::kLocal, entry.id()), local.is_valid()); });
+    R.step("new_named_label.dup", [&]() -> Error { Label x; return CV(x = a.new_named_label("entry", SIZE_MAX, LabelType::kGlobal), x.is_valid()); });
     S("bind.entry", a.bind(entry));
     S("bind.b", a.bind(LB));
     if (x86()) {
@@ -497,12 +543,13 @@ struct W2 : Workload {
 
   Label new_label(Rec& R, const char* nm) {
     Label L;
-    R.step(nm, [&]() -> Error { eh.last = Error::kOk; L = b.new_label(); return L.is_valid() ? Error::kOk : (eh.last != Error::kOk ? eh.last : Error::kOutOfMemory); });
+    R.step(nm, [&]() -> Error { return CV(L = b.new_label(), L.is_valid()); });
     return L;
   }
   void body(Rec& R) override {
     R.digest = [this](Dig& d) { digest_code(d, code); digest_nodes(d, b); d.u64(pool.size()); };
     R.semantic = [this](Dig& d) { digest_code(d, code); digest_nodes(d, b, false); };
+    R.product = [this](Dig& d) { product_code(d, code); d.u64(pool.size()); d.u64(pool.alignment()); };
     R.eh = &eh;
     R.usable = [this]() { return code.is_initialized() && b.code() == &code; };
     S0("init", code.init(Environment(Arch::kX64)));
@@ -512,7 +559,7 @@ struct W2 : Workload {
     SH("new_section.data", code.new_section(Out(data), ".data", SIZE_MAX, SectionFlags::kNone, 8));
     Label L1 = new_label(R, "new_label.1"), L2 = new_label(R, "new_label.2"), LD = new_label(R, "new_label.d"), LC = new_label(R, "new_label.c");
     Label named;
-    R.step("new_named_label", [&]() -> Error { eh.last = Error::kOk; named = b.new_named_label("func", SIZE_MAX, LabelType::kGlobal); return named.is_valid() ? Error::kOk : (eh.last != Error::kOk ? eh.last : Error::kOutOfMemory); });
+    R.step("new_named_label", [&]() -> Error { return CV(named = b.new_named_label("func", SIZE_MAX, LabelType::kGlobal), named.is_valid()); });
     S("bind.named", b.bind(named));
     S("comment", b.comment("prologue of the function"));
     S("emit.push", b.push(x86::rbx));
@@ -549,13 +596,13 @@ struct W2 : Workload {
       BaseNode* first = b.first_node();
       if (!first) return Error::kInvalidState;
       BaseNode* old = b.set_cursor(first);
-      Error e = b.nop();
+      Error e = C(b.nop());
       b.set_cursor(old);
       return e;
     });
     S("attach.assembler", code.attach(&a));
     // serialize_to() walks the node list without testing for an empty list or an unattached destination
-    if (a.code() == &code && b.first_node()) S("serialize_to", b.serialize_to(&a)); else R.skip("serialize_to");
+    if (a.code() == &code && b.first_node()) SN("serialize_to", b.serialize_to(&a)); else R.skip("serialize_to");
     SH("flatten", code.flatten());
     SH("resolve", code.resolve_cross_section_fixups());
     SH("relocate", code.relocate_to_base(0x200000000ull));
@@ -605,35 +652,41 @@ struct W3 : Workload {
     installed = false;
     R.digest = [this](Dig& d) { digest_code(d, code, !installed); digest_nodes(d, cc); d.u64(cc.virt_regs().size()); };
     R.semantic = [this](Dig& d) { if (!finalized) { d.u64(code.label_count()); digest_nodes(d, cc, false); d.u64(cc.virt_regs().size()); } };
+    R.product = [](Dig&) {};       // the product of a compilation is what the installed code computes (R.extra of the run steps)
     R.eh = &eh;
     R.usable = [this]() { return code.is_initialized() && cc.code() == &code; };
-    R.step("JitRuntime", [&]() -> Error { if (!rt) rt = new JitRuntime(); return rt->allocator().is_initialized() ? Error::kOk : Error::kOutOfMemory; }, false);
+    R.step("JitRuntime", [&]() -> Error {
+      return R.call([&]() -> Error {
+        if (rt && !rt->allocator().is_initialized()) { delete rt; rt = nullptr; }      // a runtime without allocator: construct again
+        if (!rt) rt = new JitRuntime();
+        return rt->allocator().is_initialized() ? Error::kOk : Error::kOutOfMemory;
+      });
+    }, false);
     S0("init", code.init(rt->environment(), rt->cpu_features()));
     code.set_error_handler(&eh);
     S0("attach", code.attach(&cc));
     FuncNode* fn = nullptr;
-    R.step("add_func", [&]() -> Error { fn = cc.add_func(FuncSignature::build<uint32_t, uint32_t, uint32_t, void*>()); return fn ? Error::kOk : Error::kOutOfMemory; });
+    R.step("add_func", [&]() -> Error { return CV(fn = cc.add_func(FuncSignature::build<uint32_t, uint32_t, uint32_t, void*>()), fn != nullptr); });
     x86::Gp v[NV + 1];
     x86::Gp outp;
     R.step("new_regs", [&]() -> Error {
-      for (unsigned i = 1; i <= NV; i++) { v[i] = cc.new_gp32("v%u", i); if (!v[i].is_valid()) return Error::kOutOfMemory; }
-      outp = cc.new_gp_ptr("outp");
-      return outp.is_valid() ? Error::kOk : Error::kOutOfMemory;
+      for (unsigned i = 1; i <= NV; i++) { Error e = CV(v[i] = cc.new_gp32("v%u", i), v[i].is_valid()); if (e != Error::kOk) return e; }
+      return CV(outp = cc.new_gp_ptr("outp"), outp.is_valid());
     });
     if (fn) { fn->set_arg(0, v[1]); fn->set_arg(1, v[2]); fn->set_arg(2, outp); }
     Label Lloop, Ldone, Ltab, Lc[3];
     R.step("new_labels", [&]() -> Error {
-      Lloop = cc.new_label(); Ldone = cc.new_label(); Ltab = cc.new_label();
-      for (auto& l : Lc) l = cc.new_label();
-      return Lc[2].is_valid() && Lloop.is_valid() && Ldone.is_valid() && Ltab.is_valid() && Lc[0].is_valid() && Lc[1].is_valid() ? Error::kOk : Error::kOutOfMemory;
+      Label* all[6] = {&Lloop, &Ldone, &Ltab, &Lc[0], &Lc[1], &Lc[2]};
+      for (Label* l : all) { Error e = CV(*l = cc.new_label(), l->is_valid()); if (e != Error::kOk) return e; }
+      return Error::kOk;
     });
-    R.step("emit.initall", [&]() -> Error { for (unsigned i = 3; i <= NV; i++) { Error e = cc.mov(v[i], i * 0x01010101u); if (e != Error::kOk) return e; } return Error::kOk; });
+    R.step("emit.initall", [&]() -> Error { for (unsigned i = 3; i <= NV; i++) { Error e = C(cc.mov(v[i], i * 0x01010101u)); if (e != Error::kOk) return e; } return Error::kOk; });
     S("bind.loop", cc.bind(Lloop));
     R.step("emit.mix", [&]() -> Error {
-      for (unsigned i = 3; i + 1 <= NV; i++) { Error e = cc.add(v[i], v[i + 1]); if (e != Error::kOk) return e; }
-      Error e = cc.imul(v[3], v[NV]); if (e != Error::kOk) return e;
-      e = cc.dec(v[1]); if (e != Error::kOk) return e;
-      return cc.jnz(Lloop);
+      for (unsigned i = 3; i + 1 <= NV; i++) { Error e = C(cc.add(v[i], v[i + 1])); if (e != Error::kOk) return e; }
+      Error e = C(cc.imul(v[3], v[NV])); if (e != Error::kOk) return e;
+      e = C(cc.dec(v[1])); if (e != Error::kOk) return e;
+      return C(cc.jnz(Lloop));
     });
     // call through invoke with 8 register arguments and a return value
     InvokeNode* inv = nullptr;
@@ -641,78 +694,84 @@ struct W3 : Workload {
     if (inv) { for (unsigned k = 0; k < 8; k++) inv->set_arg(k, v[5 + k]); inv->set_ret(0, v[4]); }
     // memory operand constants (local and global const pools); a failed request is reported by an empty operand
     R.step("new_const", [&]() -> Error {
-      x86::Mem c1 = cc.new_int32_const(ConstPoolScope::kLocal, 0x12345678);
-      if (!c1.is_mem()) return Error::kOutOfMemory;
-      x86::Mem c2 = cc.new_uint64_const(ConstPoolScope::kGlobal, 0x1122334455667788ull);
-      if (!c2.is_mem()) return Error::kOutOfMemory;
-      Error e = cc.add(v[4], c1); if (e != Error::kOk) return e;
-      x86::Gp t = cc.new_gp64("t64");
-      if (!t.is_valid()) return Error::kOutOfMemory;
-      e = cc.mov(t, c2); if (e != Error::kOk) return e;
-      return cc.add(v[6], t.r32());
+      // a failed request is reported through the error handler (the returned operand is an empty memory operand)
+      x86::Mem c1, c2; Error e0;
+      if ((e0 = CV(c1 = cc.new_int32_const(ConstPoolScope::kLocal, 0x12345678), c1.is_mem())) != Error::kOk) return e0;
+      if ((e0 = CV(c2 = cc.new_uint64_const(ConstPoolScope::kGlobal, 0x1122334455667788ull), c2.is_mem())) != Error::kOk) return e0;
+      Error e = C(cc.add(v[4], c1)); if (e != Error::kOk) return e;
+      x86::Gp t;
+      if ((e = CV(t = cc.new_gp64("t64"), t.is_valid())) != Error::kOk) return e;
+      e = C(cc.mov(t, c2)); if (e != Error::kOk) return e;
+      return C(cc.add(v[6], t.r32()));
     });
     // stack slot
     R.step("new_stack", [&]() -> Error {
-      x86::Mem stk = cc.new_stack(64, 16, "stk");
-      if (!stk.is_mem()) return Error::kOutOfMemory;
+      x86::Mem stk; Error e0;
+      if ((e0 = CV(stk = cc.new_stack(64, 16, "stk"), stk.is_mem())) != Error::kOk) return e0;
       x86::Mem m = stk.clone(); m.set_size(4);
-      Error e = cc.mov(m, v[7]); if (e != Error::kOk) return e;
-      return cc.add(v[8], m);
+      Error e = C(cc.mov(m, v[7])); if (e != Error::kOk) return e;
+      return C(cc.add(v[8], m));
     });
     // jump table with annotation
     R.step("jump_table", [&]() -> Error {
-      x86::Gp t = cc.new_gp_ptr("jt_idx"), off = cc.new_gp_ptr("jt_off"), tgt = cc.new_gp_ptr("jt_tgt");
-      if (!t.is_valid() || !off.is_valid() || !tgt.is_valid()) return Error::kOutOfMemory;
+      x86::Gp t, off, tgt;
       Error e;
-      if ((e = cc.mov(t.r32(), v[2])) != Error::kOk) return e;
-      if ((e = cc.and_(t.r32(), 1)) != Error::kOk) return e;
-      if ((e = cc.lea(off, x86::ptr(Ltab))) != Error::kOk) return e;
-      if ((e = cc.movsxd(tgt, x86::dword_ptr(off, t, 2))) != Error::kOk) return e;
-      if ((e = cc.add(tgt, off)) != Error::kOk) return e;
-      JumpAnnotation* ann = cc.new_jump_annotation();
-      if (!ann) return Error::kOutOfMemory;
-      for (auto& l : Lc) if ((e = ann->add_label(l)) != Error::kOk) return e;
-      return cc.jmp(tgt, ann);
+      if ((e = CV(t = cc.new_gp_ptr("jt_idx"), t.is_valid())) != Error::kOk) return e;
+      if ((e = CV(off = cc.new_gp_ptr("jt_off"), off.is_valid())) != Error::kOk) return e;
+      if ((e = CV(tgt = cc.new_gp_ptr("jt_tgt"), tgt.is_valid())) != Error::kOk) return e;
+      if ((e = C(cc.mov(t.r32(), v[2]))) != Error::kOk) return e;
+      if ((e = C(cc.and_(t.r32(), 1))) != Error::kOk) return e;
+      if ((e = C(cc.lea(off, x86::ptr(Ltab)))) != Error::kOk) return e;
+      if ((e = C(cc.movsxd(tgt, x86::dword_ptr(off, t, 2)))) != Error::kOk) return e;
+      if ((e = C(cc.add(tgt, off))) != Error::kOk) return e;
+      JumpAnnotation* ann = nullptr;
+      if ((e = CV(ann = cc.new_jump_annotation(), ann != nullptr)) != Error::kOk) return e;
+      for (auto& l : Lc) if ((e = C(ann->add_label(l))) != Error::kOk) return e;
+      return C(cc.jmp(tgt, ann));
     });
     for (unsigned c = 0; c < 3; c++) {
       char nm[32]; snprintf(nm, sizeof nm, "case.%u", c);
       R.step(nm, [&]() -> Error {
-        Error e = cc.bind(Lc[c]); if (e != Error::kOk) return e;
-        if ((e = cc.add(v[3], v[10 + c])) != Error::kOk) return e;
-        return cc.jmp(Ldone);
+        Error e = C(cc.bind(Lc[c])); if (e != Error::kOk) return e;
+        if ((e = C(cc.add(v[3], v[10 + c]))) != Error::kOk) return e;
+        return C(cc.jmp(Ldone));
       });
     }
     S("bind.done", cc.bind(Ldone));
     R.step("emit.fold", [&]() -> Error {
-      for (unsigned i = 4; i <= NV; i++) { Error e = cc.xor_(v[3], v[i]); if (e != Error::kOk) return e; }
-      Error e = cc.mov(x86::dword_ptr(outp), v[3]); if (e != Error::kOk) return e;
-      return cc.ret(v[3]);
+      for (unsigned i = 4; i <= NV; i++) { Error e = C(cc.xor_(v[3], v[i])); if (e != Error::kOk) return e; }
+      Error e = C(cc.mov(x86::dword_ptr(outp), v[3])); if (e != Error::kOk) return e;
+      return C(cc.ret(v[3]));
     });
     S("end_func", cc.end_func());
     R.step("table", [&]() -> Error {
-      Error e = cc.bind(Ltab); if (e != Error::kOk) return e;
-      for (auto& l : Lc) if ((e = cc.embed_label_delta(l, Ltab, 4)) != Error::kOk) return e;
+      Error e = C(cc.bind(Ltab)); if (e != Error::kOk) return e;
+      for (auto& l : Lc) if ((e = C(cc.embed_label_delta(l, Ltab, 4))) != Error::kOk) return e;
       return Error::kOk;
     });
     // a second, small function that uses vector registers and a division (fixed registers)
     FuncNode* fn2 = nullptr;
-    R.step("add_func.2", [&]() -> Error { fn2 = cc.add_func(FuncSignature::build<uint32_t, uint32_t, uint32_t>()); return fn2 ? Error::kOk : Error::kOutOfMemory; });
+    R.step("add_func.2", [&]() -> Error { return CV(fn2 = cc.add_func(FuncSignature::build<uint32_t, uint32_t, uint32_t>()), fn2 != nullptr); });
     R.step("body.2", [&]() -> Error {
-      x86::Gp a = cc.new_gp32("a"), b2 = cc.new_gp32("b"), hi = cc.new_gp32("hi");
-      x86::Vec x = cc.new_xmm("x"), y = cc.new_xmm("y");
-      if (!a.is_valid() || !b2.is_valid() || !hi.is_valid() || !x.is_valid() || !y.is_valid()) return Error::kOutOfMemory;
-      if (fn2) { fn2->set_arg(0, a); fn2->set_arg(1, b2); }
+      x86::Gp a, b2, hi; x86::Vec x, y;
       Error e;
-      if ((e = cc.xor_(hi, hi)) != Error::kOk) return e;
-      if ((e = cc.or_(b2, 1)) != Error::kOk) return e;
-      if ((e = cc.div(hi, a, b2)) != Error::kOk) return e;
-      if ((e = cc.movd(x, a)) != Error::kOk) return e;
-      if ((e = cc.movd(y, hi)) != Error::kOk) return e;
-      if ((e = cc.paddd(x, y)) != Error::kOk) return e;
-      if ((e = cc.movd(a, x)) != Error::kOk) return e;
-      return cc.ret(a);
+      if ((e = CV(a = cc.new_gp32("a"), a.is_valid())) != Error::kOk) return e;
+      if ((e = CV(b2 = cc.new_gp32("b"), b2.is_valid())) != Error::kOk) return e;
+      if ((e = CV(hi = cc.new_gp32("hi"), hi.is_valid())) != Error::kOk) return e;
+      if ((e = CV(x = cc.new_xmm("x"), x.is_valid())) != Error::kOk) return e;
+      if ((e = CV(y = cc.new_xmm("y"), y.is_valid())) != Error::kOk) return e;
+      if (fn2) { fn2->set_arg(0, a); fn2->set_arg(1, b2); }
+      if ((e = C(cc.xor_(hi, hi))) != Error::kOk) return e;
+      if ((e = C(cc.or_(b2, 1))) != Error::kOk) return e;
+      if ((e = C(cc.div(hi, a, b2))) != Error::kOk) return e;
+      if ((e = C(cc.movd(x, a))) != Error::kOk) return e;
+      if ((e = C(cc.movd(y, hi))) != Error::kOk) return e;
+      if ((e = C(cc.paddd(x, y))) != Error::kOk) return e;
+      if ((e = C(cc.movd(a, x))) != Error::kOk) return e;
+      return C(cc.ret(a));
     });
     S("end_func.2", cc.end_func());
+    // finalize is not repeatable (see SN)
     R.step("finalize", [&]() -> Error { finalized = true; return cc.finalize(); });
     // install and execute - only when every call so far reported success (otherwise the code is knowingly incomplete)
     uint8_t* base = nullptr;
@@ -721,7 +780,7 @@ struct W3 : Workload {
     if (runnable && code.is_initialized()) {
       R.step("add", [&]() -> Error {
         installed = true;
-        Error e = rt->add(&base, &code);
+        Error e = C(rt->add(&base, &code));
         if (e == Error::kOk) {
           if (!code.is_label_bound(fn->label()) || !code.is_label_bound(fn2->label())) return Error::kInvalidState;
           off1 = code.label_offset(fn->label()); off2 = code.label_offset(fn2->label());
@@ -774,25 +833,29 @@ struct W4 : Workload {
     R.step("JitRuntime", [&]() -> Error {
       JitAllocator::CreateParams p{};
       if (dual) p.options = JitAllocatorOptions::kUseDualMapping | JitAllocatorOptions::kFillUnusedMemory | JitAllocatorOptions::kImmediateRelease;
-      if (!rt) rt = new JitRuntime(&p);
-      return rt->allocator().is_initialized() ? Error::kOk : Error::kOutOfMemory;
+      return R.call([&]() -> Error {
+        if (rt && !rt->allocator().is_initialized()) { delete rt; rt = nullptr; }      // a runtime without allocator: construct again
+        if (!rt) rt = new JitRuntime(&p);
+        return rt->allocator().is_initialized() ? Error::kOk : Error::kOutOfMemory;
+      });
     }, false);
   }
   // assemble a function: f(x, y) = helper(x, y) + bias   (call through an absolute address -> relocation / address table)
-  Error assemble(uint32_t bias, size_t pad) {
+  Error assemble(Rec& R, uint32_t bias, size_t pad) {
     Error e;
-    if ((e = a.sub(x86::rsp, 8)) != Error::kOk) return e;
-    if ((e = a.call(Imm(uint64_t(uintptr_t(&helper))))) != Error::kOk) return e;
-    if ((e = a.add(x86::eax, bias)) != Error::kOk) return e;
-    if ((e = a.add(x86::rsp, 8)) != Error::kOk) return e;
-    if ((e = a.ret()) != Error::kOk) return e;
-    if (pad) { uint8_t z = 0xCC; if ((e = a.embed_data_array(TypeId::kUInt8, &z, 1, pad)) != Error::kOk) return e; }
+    if ((e = C(a.sub(x86::rsp, 8))) != Error::kOk) return e;
+    if ((e = C(a.call(Imm(uint64_t(uintptr_t(&helper)))))) != Error::kOk) return e;
+    if ((e = C(a.add(x86::eax, bias))) != Error::kOk) return e;
+    if ((e = C(a.add(x86::rsp, 8))) != Error::kOk) return e;
+    if ((e = C(a.ret())) != Error::kOk) return e;
+    if (pad) { uint8_t z = 0xCC; if ((e = C(a.embed_data_array(TypeId::kUInt8, &z, 1, pad))) != Error::kOk) return e; }
     return Error::kOk;
   }
   void body(Rec& R) override {
     // allocator statistics: only the number of live allocations is API-level state (blocks kept by a soft reset are a cache)
     installed = false;
     R.digest = [this](Dig& d) { digest_code(d, code, !installed); if (rt) { JitAllocator::Statistics st = rt->allocator().statistics(); d.u64(st.allocation_count()); } };
+    R.product = [this](Dig& d) { if (rt) { JitAllocator::Statistics st = rt->allocator().statistics(); d.u64(st.allocation_count()); } };   // + results (R.extra)
     R.eh = &eh;
     R.usable = [this]() { return code.is_initialized() && a.code() == &code; };
     make_rt(R);
@@ -801,20 +864,20 @@ struct W4 : Workload {
     code.set_error_handler(&eh);
     S0("attach", code.attach(&a));
     // generated code is only executed when every call that produced it reported success
-    bool ok1 = S("assemble.1", assemble(5, 0)) == Error::kOk;
+    bool ok1 = R.step("assemble.1", [&]() -> Error { return assemble(R, 5, 0); }) == Error::kOk;
     installed = true;
     ok1 &= SH("add.1", rt->add(&f1, &code)) == Error::kOk;
     R.step("run.1", [&]() -> Error { if (!f1 || !ok1) return Error(0xFFFFu); R.extra = f1(3, 4); return Error::kOk; });
     installed = false;
-    bool ok2 = S("reinit", code.reinit()) == Error::kOk;
-    ok2 &= S("assemble.2", assemble(1000, 200000)) == Error::kOk;         // larger than the first block: a second, bigger block
+    bool ok2 = SN("reinit", code.reinit()) == Error::kOk;
+    ok2 &= R.step("assemble.2", [&]() -> Error { return assemble(R, 1000, 200000); }) == Error::kOk;         // larger than the first block: a second, bigger block
     installed = true;
     ok2 &= SH("add.2", rt->add(&f2, &code)) == Error::kOk;
     R.step("run.2", [&]() -> Error { if (!f2 || !ok2) return Error(0xFFFFu); R.extra = f2(10, 20); return Error::kOk; });
     R.step("release.1", [&]() -> Error { if (!f1) return Error(0xFFFFu); Error e = rt->release(f1); f1 = nullptr; return e; }, false);
     installed = false;
-    bool ok3 = S("reinit.2", code.reinit()) == Error::kOk;
-    ok3 &= S("assemble.3", assemble(77, 300)) == Error::kOk;
+    bool ok3 = SN("reinit.2", code.reinit()) == Error::kOk;
+    ok3 &= R.step("assemble.3", [&]() -> Error { return assemble(R, 77, 300); }) == Error::kOk;
     installed = true;
     ok3 &= SH("add.3", rt->add(&f3, &code)) == Error::kOk;
     R.step("run.3", [&]() -> Error { if (!f3 || !ok3) return Error(0xFFFFu); R.extra = f3(1, 2); return Error::kOk; });
@@ -866,7 +929,7 @@ struct W5 : Workload {
   struct Added { const uint8_t* data; size_t size; size_t off; };
   std::vector<Added> adds;
   Error pool_add(Rec& R, const char* nm, const uint8_t* data, size_t size) {
-    return R.step(nm, [&]() -> Error { size_t off = 0; Error e = pool.add(data, size, Out(off)); if (e == Error::kOk) adds.push_back(Added{data, size, off}); return e; });
+    return R.step(nm, [&]() -> Error { size_t off = 0; Error e = C(pool.add(data, size, Out(off))); if (e == Error::kOk) adds.push_back(Added{data, size, off}); return e; });
   }
 
   void body(Rec& R) override {
@@ -906,8 +969,8 @@ struct W5 : Workload {
         Error e = Error::kOk;
         for (uint32_t j = 0; j < 12; j++) {      // 168 nodes: several rehashes
           uint32_t key = i * 12 + j;
-          HNode* n = arena.new_oneshot<HNode>(HKey{key}.hash_code(), key);
-          if (!n) { e = Error::kOutOfMemory; continue; }
+          HNode* n = nullptr;
+          if (CV(n = arena.new_oneshot<HNode>(HKey{key}.hash_code(), key), n != nullptr) != Error::kOk) { e = Error::kOutOfMemory; continue; }
           hash.insert(arena, n);
         }
         size_t found = 0;
@@ -923,8 +986,8 @@ struct W5 : Workload {
         Error e = Error::kOk;
         for (uint32_t j = 0; j < 8; j++) {
           uint32_t key = (i * 8 + j) * 37u % 101u;
-          TNode* n = npool.alloc(arena);
-          if (!n) { e = Error::kOutOfMemory; continue; }
+          TNode* n = nullptr;
+          if (CV(n = npool.alloc(arena), n != nullptr) != Error::kOk) { e = Error::kOutOfMemory; continue; }
           n = new(Support::PlacementNew{n}) TNode(key);
           if (tree.get(key)) { npool.release(n); continue; }
           tree.insert(n);
@@ -984,10 +1047,205 @@ struct W5 : Workload {
   }
 };
 
+// ---------------------------------------------------------------------------------------------------------
+// W6..W8 - "grow to several blocks -> soft reset / reinit / detach+attach -> oversized request".
+// After a soft reset an arena keeps its blocks; a one-shot request bigger than every retained successor block makes
+// Arena::_alloc_oneshot release those blocks one by one and then ask malloc for a replacement.  Only a failure of THAT
+// malloc (heap class - hook H1 returns before the block walk) exercises the path "blocks released, replacement
+// refused": afterwards the arena must still be walkable (next request, reset, destructor - under ASan a dangling
+// successor link is a use-after-free / double free).
+// W6 drives an Arena directly, W7 the builder arena (oversized embed() after reinit and after detach+attach),
+// W8 the compiler's builder and pass arenas (finalize, reinit, a function with an oversized data blob, finalize).
+// ---------------------------------------------------------------------------------------------------------
+static uint8_t g_big_blob[1u << 20];      // 1 MiB of zeros: bigger than every block the programs below make an arena keep
+
+struct W6 : Workload {
+  Arena arena{1024};
+  std::vector<std::pair<uint8_t*, size_t>> live;     // blocks handed out since the last reset, filled with a pattern
+  uint64_t sum = 0;
+
+  Error take(Rec& R, size_t n, bool reusable) {
+    uint8_t* p = nullptr;
+    Error e = CV(p = reusable ? arena.alloc_reusable<uint8_t>(n) : arena.alloc_oneshot<uint8_t>(Arena::aligned_size(n)), p != nullptr);
+    if (e != Error::kOk) return e;
+    memset(p, int(0x40 + live.size() % 64), n);
+    live.push_back({p, n});
+    return Error::kOk;
+  }
+  // every block handed out must still hold its pattern (no overlap, no reuse of released memory)
+  bool intact() const {
+    for (size_t i = 0; i < live.size(); i++) for (size_t j = 0; j < live[i].second; j += 97) if (live[i].first[j] != uint8_t(0x40 + i % 64)) return false;
+    return true;
+  }
+  void body(Rec& R) override {
+    live.clear();
+    // how many blocks the arena keeps is a cache (a soft reset retains them): only what was handed out is compared
+    R.digest = [this](Dig& d) { d.u64(live.size()); d.u8(intact()); };
+    for (unsigned round = 0; round < 3; round++) {
+      char nm[40];
+      // program A: grow to several blocks (1 KiB, 2 KiB, 4 KiB, ... block sizes)
+      snprintf(nm, sizeof nm, "grow.%u", round);
+      R.step(nm, [&]() -> Error { Error r = Error::kOk; for (unsigned i = 0; i < 40; i++) { Error e = take(R, 200 + 24 * (i % 9), (i % 5) == 0); if (e != Error::kOk) r = e; } return r; });
+      snprintf(nm, sizeof nm, "reset.soft.%u", round);
+      R.step(nm, [&]() -> Error { live.clear(); arena.reset(ResetPolicy::kSoft); return Error::kOk; });
+      // program B: the first request does not fit any retained block
+      snprintf(nm, sizeof nm, "oversized.%u", round);
+      R.step(nm, [&]() -> Error { return take(R, round == 1 ? 300000 : 70000, false); });
+      snprintf(nm, sizeof nm, "after.%u", round);
+      R.step(nm, [&]() -> Error { Error r = Error::kOk; for (unsigned i = 0; i < 12; i++) { Error e = take(R, 900 + 100 * i, (i & 1) != 0); if (e != Error::kOk) r = e; } return r; });
+      snprintf(nm, sizeof nm, "dynamic.%u", round);
+      R.step(nm, [&]() -> Error { return take(R, 5000, true); });       // beyond the largest reusable slot: dynamic block
+      if (round == 1) { snprintf(nm, sizeof nm, "reset.soft2.%u", round); R.step(nm, [&]() -> Error { live.clear(); arena.reset(ResetPolicy::kSoft); return Error::kOk; }); }
+    }
+    R.step("reset.hard", [&]() -> Error { live.clear(); arena.reset(ResetPolicy::kHard); return Error::kOk; });
+    R.step("after.hard", [&]() -> Error { return take(R, 3000, false); });
+  }
+  Error reset_objects(int mode) override { live.clear(); arena.reset(mode ? ResetPolicy::kHard : ResetPolicy::kSoft); return Error::kOk; }
+};
+
+struct W7 : Workload {
+  CodeHolder code;
+  x86::Builder b;
+  x86::Assembler a;
+  ErrH eh;
+  std::vector<uint8_t> image;
+
+  Error program_a(Rec& R) {         // several blocks in the builder arena (64 KiB, 128 KiB, ...) and a few in the holder's
+    Error r = Error::kOk, e;
+    for (unsigned i = 0; i < 6; i++) {
+      if ((e = C(b.embed(g_big_blob, 40000))) != Error::kOk) r = e;
+      if ((e = C(b.mov(x86::eax, i))) != Error::kOk) r = e;
+    }
+    return r;
+  }
+  void body(Rec& R) override {
+    R.digest = [this](Dig& d) { digest_code(d, code); digest_nodes(d, b); };
+    R.semantic = [this](Dig& d) { digest_code(d, code); digest_nodes(d, b, false); };
+    R.product = [this](Dig& d) { product_code(d, code); };
+    R.eh = &eh;
+    R.usable = [this]() { return code.is_initialized() && b.code() == &code; };
+    S0("init", code.init(Environment(Arch::kX64)));
+    code.set_error_handler(&eh);
+    S0("attach.builder", code.attach(&b));
+    R.step("program_a", [&]() -> Error { return program_a(R); });
+    SN("reinit", code.reinit());                                        // builder arena: soft reset, blocks retained
+    S("oversized.embed", b.embed(g_big_blob, sizeof g_big_blob));       // first request after the reset: fits no retained block
+    S("emit.after", b.mov(x86::ecx, 7));
+    R.step("program_a.2", [&]() -> Error { return program_a(R); });
+    S0("detach", code.detach(&b));                                      // on_detach: arenas soft reset again
+    S0("attach.again", code.attach(&b));
+    S("oversized.embed_data_array", b.embed_data_array(TypeId::kUInt64, g_big_blob, 8, 9000));   // 576000 bytes
+    Label L;
+    R.step("new_label", [&]() -> Error { return CV(L = b.new_label(), L.is_valid()); });
+    S("bind", b.bind(L));
+    S("emit.ret", b.ret());
+    S("attach.assembler", code.attach(&a));
+    if (a.code() == &code && b.first_node()) SN("serialize_to", b.serialize_to(&a)); else R.skip("serialize_to");
+    SH("flatten", code.flatten());
+    if (!code.is_initialized()) R.skip("copy_flattened_data"); else R.step("copy_flattened_data", [&]() -> Error {
+      size_t n = code.code_size();
+      if (n == SIZE_MAX || n > (1u << 22)) return Error::kTooLarge;
+      image.assign(n + 16, 0xCC);
+      Error e = code.copy_flattened_data(image.data(), n, CopySectionFlags::kPadSectionBuffer);
+      Dig d; d.bytes(image.data(), image.size()); R.extra = d.h;
+      return e;
+    });
+  }
+  Error reset_objects(int mode) override { code.reset(mode ? ResetPolicy::kHard : ResetPolicy::kSoft); return Error::kOk; }
+};
+
+struct W8 : Workload {
+  CodeHolder code;
+  x86::Compiler cc;
+  ErrH eh;
+  JitRuntime* rt = nullptr;
+  bool finalized = false, installed = false;
+  typedef uint32_t (*F)(uint32_t);
+  ~W8() override { delete rt; }
+
+  // f(x) = x * 3 + sum of 24 registers initialised with constants (spills), followed by a data blob of `blob` bytes
+  Error function(Rec& R, FuncNode*& fn, size_t blob, bool blob_first) {
+    Error e;
+    if (blob_first && blob) { if ((e = C(cc.embed(g_big_blob, blob))) != Error::kOk) return e; }
+    if ((e = CV(fn = cc.add_func(FuncSignature::build<uint32_t, uint32_t>()), fn != nullptr)) != Error::kOk) return e;
+    x86::Gp x, v[25];
+    if ((e = CV(x = cc.new_gp32("x"), x.is_valid())) != Error::kOk) return e;
+    fn->set_arg(0, x);
+    for (unsigned i = 1; i <= 24; i++) {
+      if ((e = CV(v[i] = cc.new_gp32("v%u", i), v[i].is_valid())) != Error::kOk) return e;
+      if ((e = C(cc.mov(v[i], i * 1000u + 7u))) != Error::kOk) return e;
+    }
+    if ((e = C(cc.imul(x, x, 3))) != Error::kOk) return e;
+    for (unsigned i = 1; i <= 24; i++) if ((e = C(cc.add(x, v[i]))) != Error::kOk) return e;
+    if ((e = C(cc.ret(x))) != Error::kOk) return e;
+    if ((e = C(cc.end_func())) != Error::kOk) return e;
+    if (!blob_first && blob) { if ((e = C(cc.embed(g_big_blob, blob))) != Error::kOk) return e; }
+    return Error::kOk;
+  }
+  void install_and_run(Rec& R, FuncNode* fn, const char* tag) {
+    char nm[40];
+    uint8_t* base = nullptr;
+    snprintf(nm, sizeof nm, "add.%s", tag);
+    bool runnable = R.all_ok && fn && code.is_initialized();
+    if (runnable) R.step(nm, [&]() -> Error { installed = true; return C(rt->add(&base, &code)); }); else R.skip(nm);
+    snprintf(nm, sizeof nm, "run.%s", tag);
+    if (runnable && R.all_ok && base && code.is_label_bound(fn->label())) {
+      uint64_t off = code.label_offset(fn->label());
+      R.step(nm, [&]() -> Error { Dig d; d.u64(reinterpret_cast<F>(base + off)(5)); d.u64(reinterpret_cast<F>(base + off)(0x7FFFFFFFu)); R.extra = d.h; return Error::kOk; });
+    } else R.skip(nm);
+    snprintf(nm, sizeof nm, "release.%s", tag);
+    if (base) S0(nm, rt->release(base)); else R.skip(nm);
+  }
+  void body(Rec& R) override {
+    finalized = installed = false;
+    R.digest = [this](Dig& d) { digest_code(d, code, !installed); digest_nodes(d, cc); d.u64(cc.virt_regs().size()); };
+    R.semantic = [this](Dig& d) { if (!finalized) { d.u64(code.label_count()); digest_nodes(d, cc, false); d.u64(cc.virt_regs().size()); } };
+    R.product = [](Dig&) {};
+    R.eh = &eh;
+    R.usable = [this]() { return code.is_initialized() && cc.code() == &code; };
+    R.step("JitRuntime", [&]() -> Error {
+      return R.call([&]() -> Error {
+        if (rt && !rt->allocator().is_initialized()) { delete rt; rt = nullptr; }
+        if (!rt) rt = new JitRuntime();
+        return rt->allocator().is_initialized() ? Error::kOk : Error::kOutOfMemory;
+      });
+    }, false);
+    S0("init", code.init(rt->environment(), rt->cpu_features()));
+    code.set_error_handler(&eh);
+    S0("attach", code.attach(&cc));
+    // program A: two functions and ~200 KiB of data nodes: several blocks in the builder arena, the pass arena grows in finalize
+    FuncNode* f1 = nullptr; FuncNode* f2 = nullptr; FuncNode* f3 = nullptr;
+    R.step("function.1", [&]() -> Error { return function(R, f1, 50000, false); });
+    R.step("function.2", [&]() -> Error { FuncNode* t = nullptr; Error e = function(R, t, 50000, false); if (e != Error::kOk) return e; return C(cc.embed(g_big_blob, 60000)); });
+    R.step("finalize.1", [&]() -> Error { finalized = true; return cc.finalize(); });
+    install_and_run(R, f1, "1");
+    finalized = installed = false;
+    SN("reinit", code.reinit());                                        // compiler: builder + pass arenas soft reset
+    // program B: the first request is a data node that fits no retained block
+    R.step("function.3", [&]() -> Error { return function(R, f2, sizeof g_big_blob, true); });
+    R.step("finalize.2", [&]() -> Error { finalized = true; return cc.finalize(); });
+    install_and_run(R, f2, "2");
+    finalized = installed = false;
+    SN("reinit.2", code.reinit());
+    R.step("function.4", [&]() -> Error { return function(R, f3, 0, false); });
+    S("oversized.embed_data_array", cc.embed_data_array(TypeId::kUInt32, g_big_blob, 16, 12000));    // 768000 bytes
+    R.step("finalize.3", [&]() -> Error { finalized = true; return cc.finalize(); });
+    install_and_run(R, f3, "3");
+  }
+  Error reset_objects(int mode) override {
+    code.reset(mode ? ResetPolicy::kHard : ResetPolicy::kSoft);
+    if (rt) {
+      if (!rt->allocator().is_initialized()) { delete rt; rt = nullptr; }
+      else rt->reset(mode ? ResetPolicy::kHard : ResetPolicy::kSoft);
+    }
+    return Error::kOk;
+  }
+};
+
 // =========================================================================================================
 // Jobs, runner, supervisor
 // =========================================================================================================
-static const char* kWorkloads[] = {"W1x64", "W1a64", "W2", "W3", "W4", "W4dual", "W5"};
+static const char* kWorkloads[] = {"W1x64", "W1a64", "W2", "W3", "W4", "W4dual", "W5", "W6", "W7", "W8"};
 static Workload* make_workload(const std::string& n) {
   if (n == "W1x64") return new W1(Arch::kX64);
   if (n == "W1a64") return new W1(Arch::kAArch64);
@@ -996,10 +1254,14 @@ static Workload* make_workload(const std::string& n) {
   if (n == "W4") return new W4(false);
   if (n == "W4dual") return new W4(true);
   if (n == "W5") return new W5();
+  if (n == "W6") return new W6();
+  if (n == "W7") return new W7();
+  if (n == "W8") return new W8();
   fprintf(stderr, "unknown workload %s\n", n.c_str()); exit(3);
 }
 
-struct Job { int cls; std::vector<uint32_t> ks; int mode = -1; };   // mode: reset policy used before the retry (-1: by job parity)
+// mode: reset policy used before the retry (-1: by job parity); inplace: continuation mode "retry in place"
+struct Job { int cls; std::vector<uint32_t> ks; int mode = -1; bool inplace = false; };
 
 static void leak_event(FILE* out) {
   vj::W w;
@@ -1033,7 +1295,7 @@ static void run_job(const std::string& wl, FILE* out, int jobno, const Job& job)
   {
     vj::W w; w.beginObj().kv("e", "Reset").kv("w", wl).kv("cls", cls_name(job.cls)).key("k").beginArr();
     for (uint32_t k : job.ks) w.val((long long)k);
-    w.endArr().kv("job", jobno).endObj().emit(out); fflush(out);
+    w.endArr().kv("job", jobno).kv("cont", job.inplace ? "inplace" : "restart").endObj().emit(out); fflush(out);
   }
   g_heap.clear(); g_maps.clear(); g_fds.clear();
   E.plan_clear();
@@ -1042,7 +1304,7 @@ static void run_job(const std::string& wl, FILE* out, int jobno, const Job& job)
   E.track = true;
   {
     Workload* W = make_workload(wl);
-    Rec R; R.out = out; R.ph = 'F';
+    Rec R; R.out = out; R.ph = 'F'; R.inplace = job.inplace;
     E.armed = true;
     W->body(R);
     E.armed = false;
@@ -1078,6 +1340,8 @@ static std::vector<Job> make_jobs(const uint64_t counts[4], bool thorough, unsig
       }
     }
   }
+  // every position again with the continuation "retry in place" (one reset policy per position)
+  { size_t n0 = jobs.size(); for (size_t i = 0; i < n0; i++) { if (jobs[i].mode == 1) continue; Job j = jobs[i]; j.inplace = true; j.mode = -1; jobs.push_back(j); } }
   // random multi-failure patterns: 2..5 positions of one class, or every request from some point on
   vj::Rng r(seed * 7919 + 13);
   for (unsigned m = 0; m < masks; m++) {
@@ -1085,7 +1349,7 @@ static std::vector<Job> make_jobs(const uint64_t counts[4], bool thorough, unsig
     if (!counts[cls]) cls = C_ARENA;
     uint64_t n = std::min<uint64_t>(counts[cls], kPlanBits - 1);
     if (!n) continue;
-    Job j; j.cls = cls;
+    Job j; j.cls = cls; j.inplace = (m & 1) != 0;
     unsigned kind = unsigned(r.below(4));
     if (kind == 0) { uint64_t from = 1 + r.below(n); for (uint64_t k = from; k <= std::min<uint64_t>(n + 64, from + 4000); k++) j.ks.push_back(uint32_t(k)); }   // memory stays exhausted
     else { unsigned cnt = 2 + unsigned(r.below(4)); for (unsigned i = 0; i < cnt; i++) j.ks.push_back(uint32_t(1 + r.below(n))); std::sort(j.ks.begin(), j.ks.end()); j.ks.erase(std::unique(j.ks.begin(), j.ks.end()), j.ks.end()); }
@@ -1186,8 +1450,9 @@ int main(int argc, char** argv) {
     j.cls = c == "arena" ? C_ARENA : c == "heap" ? C_HEAP : C_VM;
     char* p = argv[5];
     while (*p) { j.ks.push_back(uint32_t(strtoul(p, &p, 10))); if (*p == ',') p++; }
+    j.inplace = argc >= 7 && std::string(argv[6]) == "inplace";
     return supervise(argv[3], argv[2], false, 1, 0, 0, &j);
   }
-  fprintf(stderr, "usage: faults list | run <trace> <workload> <quick|thorough> <nshard> <shard> [masks] | one <trace> <workload> <cls> <k,..>\n");
+  fprintf(stderr, "usage: faults list | run <trace> <workload> <quick|thorough> <nshard> <shard> [masks] | one <trace> <workload> <cls> <k,..> [inplace]\n");
   return 3;
 }
